@@ -60,6 +60,15 @@ class Steps:
             self.flush()
             kind = f["kind"]
             if kind == "oserror":
+                if name in ("write-output", "close-output", "open-output", "remove-output"):
+                    # on the output side the error takes the shapes real devices give it: EIO, a reader that went
+                    # away (EPIPE), a full device (ENOSPC), a revoked permission, a quota - all of them are failures
+                    shapes = [(OSError, errno.EIO), (BrokenPipeError, errno.EPIPE), (OSError, errno.ENOSPC),
+                              (PermissionError, errno.EACCES), (OSError, errno.EDQUOT), (ConnectionResetError, errno.ECONNRESET)]
+                    cls, code = shapes[(self.n + f.get("shape", 0)) % len(shapes)]
+                    self.log.append("SHAPE %s" % cls.__name__)
+                    self.flush()
+                    raise cls(code, "vmon injected %s at %s" % (errno.errorcode[code], label))
                 raise OSError(errno.EIO, "vmon injected I/O error at %s" % label)
             if kind == "memory":
                 raise MemoryError("vmon injected at %s" % label)
